@@ -119,6 +119,31 @@ def run(prog, rep, tier):
             r2.fail(dv.name, "decode-err-as-need-more", "RtrCodec::decode maps every Message::from_bytes error (including an unknown PDU type in a complete frame) to Ok(None) = 'need more bytes': the client stops making progress", dv.loc(stall[0]))
         else:
             r2.ok("RtrCodec::decode does not turn PDU errors into 'need more bytes'")
+        # well-formed PDUs of a type the client does not use are skipped: parsing is reached only for the types the
+        # parser has an arm for, and the "supported" predicate names exactly those types
+        fb = prog.find(r"rustybgp_packet::rpki::Message::from_bytes")
+        sp = prog.find(r"rustybgp_packet::rpki::Message::is_supported_type")
+        parse_types = set()
+        if len(fb) == 1:
+            fbv = view(prog, fb[0])
+            for bb, br in branches(fbv).items():
+                if br.expr[0] == "var" and br.expr[1] == "message_type":
+                    parse_types |= {int(c) for c, _ in br.cases}
+        sup_types = set()
+        if len(sp) == 1:
+            spv = view(prog, sp[0])
+            for bb, br in branches(spv).items():
+                if br.expr[0] == "var" and br.expr[1] == "message_type":
+                    sup_types |= {int(c) for c, _ in br.cases}
+        guarded = all(any(g[0] == "call" and g[1].endswith("Message::is_supported_type") and l == {"true"} for g, l, h in flat_guards(dv, bi))
+                      for bi, t in dv.calls(re.compile(r"rustybgp_packet::rpki::Message::from_bytes$")))
+        if len(parse_types) < 8:
+            r2.unanalysable("Message::from_bytes: PDU type switch not recognised (%d types)" % len(parse_types), dv.loc())
+        elif guarded and sup_types == parse_types:
+            r2.ok("RtrCodec::decode parses only the %d PDU types Message::from_bytes knows and skips the rest" % len(parse_types))
+        else:
+            r2.fail(dv.name, "unused-pdu-type-not-skipped", "a complete PDU of a type the parser has no arm for (e.g. Router Key, type 9) is %s: the session ends or stalls on a well-formed stream"
+                    % ("handed to Message::from_bytes, which reports an error" if not guarded else "classified by a predicate (%s) that disagrees with the parser's arms (%s)" % (sorted(sup_types), sorted(parse_types))), dv.loc())
     else:
         r2.unanalysable("RtrCodec::decode anchor matched %d" % len(dk))
 
